@@ -10,7 +10,7 @@ package ice
 
 // pairPrioOf(p): the pair priority as a function of the pair's fields (the
 // postcondition of (*CandidatePair).priority, usable under quantifiers).
-//@ spec macro pairPrioOf(p *CandidatePair) = ite(p.hasPriorityOverride, p.priorityOverride, ite(p.iceRoleControlling, pairPrio(candPrio(p.Local.payload), candPrio(p.Remote.payload)), pairPrio(candPrio(p.Remote.payload), candPrio(p.Local.payload))))
+//@ spec macro pairPrioOf(p *CandidatePair) = ite(p.iceRoleControlling, pairPrio(candPrio(p.Local.payload), remotePrioOf(p)), pairPrio(remotePrioOf(p), candPrio(p.Local.payload)))
 
 //@ func (*Agent).getBestValidCandidatePair
 //@   props C07
